@@ -51,6 +51,8 @@ def run_job(modname, job, root_prefix, seed_only, deadline=None):
     global _worker_client
     t0 = time.time()
     try:
+        import logging
+        logging.disable(logging.CRITICAL)      # the library logs f-strings of proxies; formatting is stubbed, output suppressed
         _monitor_start()
         mod = importlib.import_module(modname)
         h = mod.make(job)
